@@ -29,7 +29,8 @@ import (
 // ---------------------------------------------------------------- script
 
 // Op is one submitted operation. Kinds: start, register, auth, report, clock,
-// rotate, restart.
+// rotate, restart, migrate (a migration order: JSON body in Hex; it changes
+// none of the compared sections).
 type Op struct {
 	I       int    `json:"i"`
 	K       string `json:"k"`
@@ -37,7 +38,8 @@ type Op struct {
 	V       uint32 `json:"v,omitempty"`   // clock value
 	Round   int    `json:"round"`         // -1 = sequential part
 	SleepUs int    `json:"sleep_us,omitempty"`
-	Tag     string `json:"tag,omitempty"` // generator class (evidence only)
+	Tag     string `json:"tag,omitempty"`   // generator class (evidence only)
+	Storm   bool   `json:"storm,omitempty"` // posted in a loop by a second connection while the previous op runs
 }
 
 // Round is one barrier-delimited section of a concurrent workload.
